@@ -837,6 +837,8 @@ func lemmaCreateThenMapQueue(data []byte, cap uint32) {
 // send: header and body of one queued event are written under ONE hold of the lock
 //@ func (*Session).send
 //@   requires s != nil
+//@   at call? (*Session).writeEventData#0 check[C18] sameMem(a1, ready.Hdr, 0) && len(a1) == len(ready.Hdr)       // an event goes out header first,
+//@   at call? (*Session).writeEventData#1 check[C18] sameMem(a1, ready.Body, 0) && len(a1) == len(ready.Body)     // then its body (the two calls in source order)
 //@   ghost var mine bool = false
 //@   at call? sync/atomic.CompareAndSwapUint32#0 ghost[C18] mine := r0
 //@   at call? (*Session).writeEventData#0 check[C18] mine
